@@ -315,6 +315,7 @@ def run(tier: str, seed: int, rep: Report, model: Model) -> dict:
     rep.rule = ("operator trees of depth <= 4 over VariableAxis a,b,c, plain ints, LiteralAxis, + - * // ** (exponent: small literal or variable), "
                 "Min, Max, ISqrt, Group, built by Python's own evaluation of generated source; 3 non-negative scopes each; distinct = distinct "
                 "source; non-trivial = at least two operators")
+    rep.rule += "; shared sub-expression objects; negative literals; whole Shape[...] values (ConstantAxis, AnonymousAxis, plain ints) against the model's print_sshape and the annotation built from the printed string; every operator / constructor x operand kind on either side against the model's operand dispatch"
     trees = [gen(rnd, rnd.choice([1, 2, 2, 3, 3, 4])) for _ in range(n)]
     # the formerly wrong shapes first
     A, B, C = ("var", "a"), ("var", "b"), ("var", "c")
